@@ -118,10 +118,10 @@ def run(tier, seed):
                 else:
                     if a[0] != b[0]:
                         sig = f"outcome:{a[0]}-vs-{b[0]}"
-                    elif a[1] != b[1]:
-                        sig = "column-types-differ"
                     elif a[2] != b[2]:
                         sig = "rows-differ"
+                    elif a[1] != b[1]:
+                        sig = "column-types-differ"
                     else:
                         sig = "order-differs"
                     chk.fail(cid, sig, cc, {"mem": mr[si], "disk": dr[si]})
